@@ -2,6 +2,7 @@
 import hashlib
 
 from .. import gen, probes
+from ..core import fresh_str
 from ..ref import addr as raddr, secp, base58 as rb58, bech32 as rbech
 from ..ref.hashes import sha256, hash160 as ref_hash160, ripemd160 as ref_ripemd_cross, ripemd160_fast
 
@@ -17,7 +18,7 @@ RULE = ("hash clause: EVERY byte length 0..1024 x {zeros, ff, counter, random} (
         "(1, 2, n-1, both parities, x with leading zero bytes from a committed corpus, random) x {mainnet,testnet} x five "
         "kinds + compressed/uncompressed P2PKH, each decoded by the independent Base58Check/Bech32 decoder; distinct = distinct "
         "(monitor, case) digests"
-        " EXTENSIONS: + committed corpus of inputs driving RIPEMD-160 through all-ones / zero internal words, key objects parsed from compressed / uncompressed / hybrid / raw SEC, both forms asked twice in either order, leading-zero Y corpus, every scalar corner enumerated, the address column of wallet listings of K+3 rows per harvested threshold K and purpose, public keys with a coordinate in [n, p) (committed corpus) in every SEC form, request histories")
+        " EXTENSIONS: + committed corpus of inputs driving RIPEMD-160 through all-ones / zero internal words, key objects parsed from compressed / uncompressed / hybrid / raw SEC, both forms asked twice in either order, leading-zero Y corpus, every scalar corner enumerated, the address column of wallet listings of K+3 rows per harvested threshold K and purpose, public keys with a coordinate in [n, p) (committed corpus) in every SEC form, request histories, address kinds handed over as fresh (non-literal) strings")
 LEVEL_TEXT = ("Each address string produced by the five BaseWallet.*_address methods, PublicKey.address and the h160/h256 "
               "helpers is decoded with an independent decoder and compared with version byte / hrp+witness version and the "
               "HASH160 / SHA-256 of the key or standard script computed by the reference model; script builders are compared "
@@ -182,7 +183,8 @@ def judge_pubkey_address(ctx, case):
     for comp in order + order:          # (both forms, asked twice in the case's order on the SAME key object)
         sec = secp.ser(pt, comp)
         for typ in ("p2pkh", "p2wpkh"):
-            got = K.address(compressed=comp, testnet=tn, addr_type=typ)
+            # (the kind is handed over as a string of the caller's own making - equal to, not identical with, any literal)
+            got = K.address(compressed=comp, testnet=tn, addr_type=fresh_str(typ) if case.get("uncompressed_first") else typ)
             want = raddr.p2pkh(sec, tn) if typ == "p2pkh" else raddr.p2wpkh(sec, tn)
             if got != want:
                 bad.append(("%s|comp=%s" % (typ, comp), want, got))
